@@ -57,6 +57,23 @@ LY_ERR lys_check_features(const struct lysp_module *pmod);
 LY_ERR lys_set_features(struct lysp_module *pmod, const char **features);
 
 /**
+ * @brief Remember which features of a parsed module and its submodules are enabled.
+ *
+ * @param[in] pmod Parsed module to read.
+ * @param[out] backup Allocated array with the state of every feature, NULL if the module has no features.
+ * @return LY_ERR value.
+ */
+LY_ERR lys_features_backup(const struct lysp_module *pmod, ly_bool **backup);
+
+/**
+ * @brief Set the features of a parsed module and its submodules back to a remembered state.
+ *
+ * @param[in] pmod Parsed module to modify.
+ * @param[in] backup Array created by ::lys_features_backup() for @p pmod, may be NULL.
+ */
+void lys_features_restore(struct lysp_module *pmod, const ly_bool *backup);
+
+/**
  * @brief Compile if-features of features in the provided module and all its submodules.
  *
  * @param[in] pmod Parsed module to process.
